@@ -22,6 +22,9 @@ PROPS["C06"] = {
         "RCE.Props.C06.bishop_mask_source_eq",
         "RCE.Props.C06.rook_slow_source_eq",
         "RCE.Props.C06.bishop_slow_source_eq",
+        "RCE.Props.C06.shift_east_source_eq",
+        "RCE.Props.C06.shift_west_source_eq",
+        "RCE.Props.C06.trim_edges_source_eq",
         "RCE.Props.C06.rook_attacks_exact",
         "RCE.Props.C06.bishop_attacks_exact",
         "RCE.Props.C06.queen_attacks_exact",
@@ -320,3 +323,8 @@ SDB_T = dict(S("search-deepbudget", "deepbudget", 400, 8), driver="search:0")
 for _p in ("C09", "C14"):
     PROPS[_p]["streams"]["quick"] = PROPS[_p]["streams"]["quick"] + [SDB_Q]
     PROPS[_p]["streams"]["thorough"] = PROPS[_p]["streams"]["thorough"] + [SDB_T]
+
+# a full search, then complete shallower searches of positions two plies on, cache kept (a deeper entry for the new root may exist)
+SKB4_Q = S("search-kb4", "kb", 32, 4)
+PROPS["C14"]["streams"]["quick"] = PROPS["C14"]["streams"]["quick"] + [SKB4_Q]
+PROPS["C14"]["streams"]["thorough"] = PROPS["C14"]["streams"]["thorough"] + [S("search-kb4", "kb", 200, 5)]
